@@ -1,4 +1,5 @@
 import ProductMD.Proofs.Validation
+import ProductMD.Proofs.ErrClass
 import ProductMD.Generated.Regexes
 /-!
 # C06 — only objects meeting every documented field constraint can be written
@@ -11,10 +12,15 @@ source (`Gen.allClasses`), the places where the writers call `validate()` are re
 
 Full statement of the property:  ∀ obj, (∃ p ∈ parts obj, ∃ r ∈ catalogue p.cls, r violated on p) →
   ∃ e, dumps obj = .error e ∧ (e = .typeError ∨ e = .valueError);   conversely all rules hold → dumps obj = .ok.
-The rejection half is proved in full (`C06_enforced_*`).  The error-class half is FALSE of the code (finding F19: a
-hand-bound validator body can raise AttributeError), so it is proved as `C06_errclass_*_partial` with the exact exception:
-the error of a failed dump is TypeError/ValueError unless it is the error of a hand-bound validator body (or the IndexError of
-a treeinfo without variants, F12).  The converse carries every non-validator failure source of the writers as a hypothesis.
+`C06_enforced_*` (rejection) and `C06_errclass_*` (ANY failure of the walk is TypeError or ValueError) together give it.
+Since the F23 repair no hand-bound validator body raises another class; what `C06_errclass_*` excludes is named exactly:
+* treeinfo with no variant at all: IndexError from `variants[0]` in `General.serialize` (F12) — a disjunct of the theorem;
+* `StepsInDomain`: parts where the MODEL does not know the class (`Err.other`): a variant whose parent's uid is a list / dict /
+  foreign object (`"%s-%s" % …` cannot be computed; Python yields "equal or ValueError"), a parent arch container that is a
+  foreign object; and wrong-shape SKELETONS: a treeinfo checksum table that is a str/list/foreign object or a platform table that
+  is not a dict (the real code raises AttributeError there — not a field rule, the catalogue has no rule about container shapes).
+  `Part.InDomain` is decidable; for images, rpms, modules, extra_files and discinfo it holds of every object (no hypothesis).
+The converse carries every non-validator failure source of the writers as a hypothesis.
 -/
 namespace PM
 open PM.Val
@@ -221,26 +227,11 @@ theorem C06_parts_forest (v : CIVar) (vs : List CIVar) (h : CIVar.In v vs) :
     obtain ⟨par, hpar⟩ := ih (parentPseudo a)
     exact ⟨par, by simp only [eventsList, CIVar.events, List.mem_append, List.mem_cons]; exact Or.inl (Or.inr (Or.inl hpar))⟩
 
-/-! ## C06, error class (partial: F19) -/
-
-def TV (e : Err) : Prop := e = .typeError ∨ e = .valueError
+/-! ## C06, error class: the writer-side checks -/
 
 /-- the writer-side checks of the walk fail only with errors satisfying `P` -/
 def CheckIn (P : Err → Prop) (steps : List Step) : Prop :=
   ∀ r, Step.check r ∈ steps → ∀ e, r = .error e → P e
-
-/-- error of a failed walk: TypeError/ValueError from a translated rule, an error of a writer-side check, or the error of a
-hand-bound validator body -/
-theorem errclass_of_steps (P : Err → Prop) (steps : List Step) (hc : CheckIn P steps) (e : Err) (h : runSteps steps = .error e) :
-    TV e ∨ P e ∨ ∃ p, Step.validate p ∈ steps ∧ ∃ n, customs2 n p.obj = .error e := by
-  obtain ⟨s, hs, hrun⟩ := runSteps_error_src steps e h
-  cases s with
-  | validate p =>
-    rcases runRules_errclass customs2 p.obj (genRules p.cls) e hrun with h1 | h1 | ⟨_, _, n, _, hn⟩
-    · exact Or.inl (Or.inl h1)
-    · exact Or.inl (Or.inr h1)
-    · exact Or.inr (Or.inr ⟨p, hs, n, hn⟩)
-  | check r => exact Or.inr (Or.inl (hc r hs e hrun))
 
 theorem pySortedOk_tv (v : PyVal) (e : Err) (h : pySortedOk v = .error e) : e = .typeError := by
   unfold pySortedOk at h
@@ -314,71 +305,6 @@ theorem checkIn_jsonHeader (P) (h : Obj) : CheckIn P (jsonHeaderSteps h) := by
   split
   · intro r hr; simp at hr
   · exact checkIn_vstep _ _ _ _
-
-/-- composeinfo: a failed dump raises TypeError or ValueError — except when the failure is the error of a hand-bound
-validator body run on a validated part (F19: `_validate_uid` on a non-string uid without parent gives AttributeError). -/
-theorem C06_errclass_composeinfo_partial (m : ComposeInfoM) (e : Err) (h : m.dumps = .error e) :
-    e = .typeError ∨ e = .valueError ∨ ∃ p, Step.validate p ∈ m.steps ∧ ∃ n, customs2 n p.obj = .error e := by
-  have hc : CheckIn TV m.steps := by
-    unfold ComposeInfoM.steps
-    exact checkIn_append (checkIn_append (checkIn_append (checkIn_append (checkIn_append (checkIn_append (checkIn_vstep _ _ _ _)
-      (checkIn_jsonHeader _ _)) (checkIn_vstep _ _ _ _)) (checkIn_vstep _ _ _ _)) (checkIn_ite _ _ (checkIn_vstep _ _ _ _) (checkIn_nil _)))
-      (checkIn_vstep _ _ _ _)) (checkIn_evSteps _ _)
-  rcases errclass_of_steps TV m.steps hc e h with (h1 | h1) | (h1 | h1) | h1
-  · exact Or.inl h1
-  · exact Or.inr (Or.inl h1)
-  · exact Or.inl h1
-  · exact Or.inr (Or.inl h1)
-  · exact Or.inr (Or.inr h1)
-
-/-- images: no writer-side check at all -/
-theorem C06_errclass_images_partial (m : ImagesM) (e : Err) (h : m.dumps = .error e) :
-    e = .typeError ∨ e = .valueError ∨ ∃ p, Step.validate p ∈ m.steps ∧ ∃ n, customs2 n p.obj = .error e := by
-  have hc : CheckIn (fun _ => False) m.steps := by
-    unfold ImagesM.steps
-    exact checkIn_append (checkIn_append (checkIn_append (checkIn_vstep _ _ _ _) (checkIn_jsonHeader _ _)) (checkIn_vstep _ _ _ _))
-      (checkIn_flatMap _ _ _ fun o => checkIn_vstep _ _ _ _)
-  rcases errclass_of_steps _ m.steps hc e h with (h1 | h1) | h1 | h1
-  · exact Or.inl h1
-  · exact Or.inr (Or.inl h1)
-  · exact h1.elim
-  · exact Or.inr (Or.inr h1)
-
-/-- treeinfo: TypeError/ValueError, or IndexError (no variants: F12), or the error of a hand-bound validator body
-(F19: `Images._validate_image_paths` on a non-string path gives AttributeError). -/
-theorem C06_errclass_treeinfo_partial (m : TreeInfoM) (e : Err) (h : m.dumps = .error e) :
-    e = .typeError ∨ e = .valueError ∨ (e = .indexError ∧ m.variants = [])
-      ∨ ∃ p, Step.validate p ∈ m.steps ∧ ∃ n, customs2 n p.obj = .error e := by
-  have hc : CheckIn (fun e => TV e ∨ (e = .indexError ∧ m.variants = [])) m.steps := by
-    unfold TreeInfoM.steps
-    refine checkIn_append (checkIn_append (checkIn_append (checkIn_append (checkIn_append (checkIn_append (checkIn_append (checkIn_append
-      (checkIn_append (checkIn_append (checkIn_append (checkIn_vstep _ _ _ _) (checkIn_vstep _ _ _ _)) (checkIn_vstep _ _ _ _))
-      (checkIn_ite _ _ (checkIn_vstep _ _ _ _) (checkIn_nil _))) (checkIn_vstep _ _ _ _)) (checkIn_vstep _ _ _ _)) ?_) (checkIn_vstep _ _ _ _))
-      (checkIn_ite _ _ (checkIn_vstep _ _ _ _) (checkIn_nil _))) (checkIn_ite _ _ (checkIn_vstep _ _ _ _) (checkIn_nil _))) ?_) ?_
-    · refine checkIn_flatMap _ _ _ fun o => ?_
-      unfold TreeInfoM.variantSteps
-      refine checkIn_append (checkIn_vstep _ _ _ _) (checkIn_single _ _ fun e he => ?_)
-      split at he
-      · cases he
-      · exact Or.inl (Or.inl (by cases he; rfl))
-    · refine checkIn_ite _ _ (checkIn_append (checkIn_vstep _ _ _ _) ?_) (checkIn_nil _)
-      have h1 : CheckIn (fun e => TV e ∨ (e = .indexError ∧ m.variants = [])) [Step.check (pyIntOk (m.media.get (L "discnum")))] :=
-        checkIn_single _ _ fun e he => Or.inl (Or.inl (pyIntOk_tv _ e he))
-      have h2 : CheckIn (fun e => TV e ∨ (e = .indexError ∧ m.variants = [])) [Step.check (pyIntOk (m.media.get (L "totaldiscs")))] :=
-        checkIn_single _ _ fun e he => Or.inl (Or.inl (pyIntOk_tv _ e he))
-      exact checkIn_append h1 h2
-    · refine checkIn_single _ _ fun e he => ?_
-      split at he
-      · rename_i hemp
-        exact Or.inr ⟨by cases he; rfl, by simpa using hemp⟩
-      · cases he
-  rcases errclass_of_steps _ m.steps hc e h with (h1 | h1) | ((h1 | h1) | h1) | h1
-  · exact Or.inl h1
-  · exact Or.inr (Or.inl h1)
-  · exact Or.inl h1
-  · exact Or.inr (Or.inl h1)
-  · exact Or.inr (Or.inr (Or.inl h1))
-  · exact Or.inr (Or.inr (Or.inr h1))
 
 /-! ## C06, converse: conforming objects are written -/
 
@@ -498,6 +424,289 @@ theorem C06_converse_composeinfo (m : ComposeInfoM) (h : ∀ p ∈ m.parts, p.Co
     · exact absurd hr (by unfold vstep; split <;> simp)
     · exact hw r hr
 
+/-- treeinfo: all written parts conform and none of the writer's own failure sources fires — there is at least one variant
+(`variants[0]` in `General.serialize`; with `main_variant=None`, the only way `dumps()` calls it, the key exists), every
+variant's uid is a string (`"variant-" + self.uid`), a written `[media]` section has both numbers (`int(None)`) — then the
+dump succeeds.  (Unvalidated attributes the INI writer needs as strings — variant names, path tables, platforms — are the
+well-typed skeleton, not part of the model.) -/
+theorem C06_converse_treeinfo (m : TreeInfoM) (h : ∀ p ∈ m.parts, p.Conforms) (hv : m.variants.isEmpty = false)
+    (hu : ∀ o ∈ m.flat, isStr (o.get c!"uid") = true)
+    (hm : m.hasMedia = true → pyIntOk (m.media.get c!"discnum") = .ok () ∧ pyIntOk (m.media.get c!"totaldiscs") = .ok ()) :
+    m.dumps = .ok () := by
+  refine converse_of_steps m.steps (fun p hp => ?_) (fun r hr => ?_)
+  · simp only [TreeInfoM.steps, List.mem_append, List.mem_flatMap] at hp
+    rcases hp with ((((((((((hp | hp) | hp) | hp) | hp) | hp) | ⟨o, ho, hp⟩) | hp) | hp) | hp) | hp) | hp
+    · exact validate_mem_vstep hp ▸ conforms_of_empty _ (by decide)
+    · exact validate_mem_vstep hp ▸ h _ (by simp [TreeInfoM.parts])
+    · exact validate_mem_vstep hp ▸ h _ (by simp [TreeInfoM.parts])
+    · split at hp
+      · rename_i hl
+        exact validate_mem_vstep hp ▸ h _ (by simp [TreeInfoM.parts, hl])
+      · cases hp
+    · exact validate_mem_vstep hp ▸ h _ (by simp [TreeInfoM.parts])
+    · exact validate_mem_vstep hp ▸ h _ (by simp [TreeInfoM.parts])
+    · simp only [TreeInfoM.variantSteps, List.mem_append, List.mem_cons, List.not_mem_nil, or_false] at hp
+      rcases hp with hp | hp
+      · exact validate_mem_vstep hp ▸ h _ (by
+          simp only [TreeInfoM.parts, List.mem_append, List.mem_map]
+          exact Or.inl (Or.inl (Or.inl (Or.inl (Or.inr ⟨o, ho, rfl⟩)))))
+      · cases hp
+    · exact validate_mem_vstep hp ▸ h _ (by simp [TreeInfoM.parts])
+    · split at hp
+      · rename_i hl
+        exact validate_mem_vstep hp ▸ h _ (by simp [TreeInfoM.parts, hl])
+      · cases hp
+    · split at hp
+      · rename_i hl
+        exact validate_mem_vstep hp ▸ h _ (by simp [TreeInfoM.parts, hl])
+      · cases hp
+    · split at hp
+      · rename_i hl
+        simp only [List.mem_append, List.mem_cons, List.not_mem_nil, or_false] at hp
+        rcases hp with hp | hp | hp
+        · exact validate_mem_vstep hp ▸ h _ (by simp [TreeInfoM.parts, hl])
+        · cases hp
+        · cases hp
+      · cases hp
+    · simp at hp
+  · simp only [TreeInfoM.steps, List.mem_append, List.mem_flatMap] at hr
+    have nov : ∀ {flag cls o}, Step.check r ∈ vstep flag cls o → False := by
+      intro flag cls o hx; unfold vstep at hx; split at hx <;> simp at hx
+    rcases hr with ((((((((((hr | hr) | hr) | hr) | hr) | hr) | ⟨o, ho, hr⟩) | hr) | hr) | hr) | hr) | hr
+    · exact (nov hr).elim
+    · exact (nov hr).elim
+    · exact (nov hr).elim
+    · split at hr
+      · exact (nov hr).elim
+      · cases hr
+    · exact (nov hr).elim
+    · exact (nov hr).elim
+    · simp only [TreeInfoM.variantSteps, List.mem_append, List.mem_cons, List.not_mem_nil, or_false] at hr
+      rcases hr with hr | hr
+      · exact (nov hr).elim
+      · simp only [Step.check.injEq] at hr
+        subst hr
+        simp [hu o ho]
+    · exact (nov hr).elim
+    · split at hr
+      · exact (nov hr).elim
+      · cases hr
+    · split at hr
+      · exact (nov hr).elim
+      · cases hr
+    · split at hr
+      · rename_i hl
+        simp only [List.mem_append, List.mem_cons, List.not_mem_nil, or_false] at hr
+        rcases hr with hr | hr | hr
+        · exact (nov hr).elim
+        · simp only [Step.check.injEq] at hr; subst hr; exact (hm hl).1
+        · simp only [Step.check.injEq] at hr; subst hr; exact (hm hl).2
+      · cases hr
+    · simp only [List.mem_cons, List.not_mem_nil, or_false, Step.check.injEq] at hr
+      subst hr
+      simp [hv]
+
+/-! ## C06, error class: every failure of the walk is TypeError or ValueError -/
+
+/-- hand-bound rules occur bare in the generated rule lists and are the nine the catalogue names -/
+theorem C06_customs_bare : ∀ c ∈ Gen.allClasses, ∀ r ∈ c.2.flat, ∀ n ∈ Rule.customNamesIn r, r = .custom n ∧ n ∈ Spec.customNames := by
+  decide +kernel
+
+/-- in every class `_assert_type("id", str)` runs before the uid alignment body (method order `_validate_id` < `_validate_uid`) -/
+theorem C06_id_before_uid : ∀ c ∈ Gen.allClasses,
+    precededBy idRule (.custom Spec.cCiUid) c.2.flat = true ∧ precededBy idRule (.custom Spec.cTiUid) c.2.flat = true := by
+  decide +kernel
+
+theorem genRules_cases (cls : String) : genRules cls = [] ∨ ∃ c ∈ Gen.allClasses, genRules cls = c.2.flat := by
+  unfold genRules
+  cases hf : Gen.allClasses.find? (·.1 == cls) with
+  | none => exact Or.inl rfl
+  | some c => exact Or.inr ⟨c, List.mem_of_find?_eq_some hf, rfl⟩
+
+theorem customs_bare (cls : String) : ∀ r ∈ genRules cls, ∀ n ∈ Rule.customNamesIn r, r = .custom n ∧ n ∈ Spec.customNames := by
+  rcases genRules_cases cls with h | ⟨c, hc, h⟩
+  · rw [h]; intro r hr; cases hr
+  · rw [h]; exact C06_customs_bare c hc
+
+theorem id_before_uid (cls : String) :
+    precededBy idRule (.custom Spec.cCiUid) (genRules cls) = true ∧ precededBy idRule (.custom Spec.cTiUid) (genRules cls) = true := by
+  rcases genRules_cases cls with h | ⟨c, hc, h⟩
+  · rw [h]; exact ⟨rfl, rfl⟩
+  · rw [h]; exact C06_id_before_uid c hc
+
+/-- every validated part of the walk lies where the model knows the exception class (see the file header) -/
+def StepsInDomain (steps : List Step) : Prop := ∀ p, Step.validate p ∈ steps → p.InDomain = true
+
+/-- a failed walk whose validated parts are in the domain fails with TypeError/ValueError or with the error of a writer check -/
+theorem errclass_of_steps (P : Err → Prop) (steps : List Step) (hc : CheckIn P steps) (hd : StepsInDomain steps)
+    (e : Err) (h : runSteps steps = .error e) : TV e ∨ P e := by
+  obtain ⟨s, hs, hrun⟩ := runSteps_error_src steps e h
+  cases s with
+  | validate p => exact Or.inl (validate2_tv customs_bare id_before_uid p (hd p hs) e hrun)
+  | check r => exact Or.inr (hc r hs e hrun)
+
+/-- classes none of whose hand-bound rules has a domain condition: every part is in the domain -/
+def plainClass (cls : String) : Bool :=
+  ((genRules cls).flatMap Rule.customNamesIn).all fun n =>
+    !(n == Spec.cCiParentArch) && !(n == Spec.cCiUid || n == Spec.cTiUid) && !(n == Spec.cTiChecksumPaths) && !(n == Spec.cTiImagePaths)
+
+theorem inDomain_of_plain (p : Part) (h : plainClass p.cls = true) : p.InDomain = true := by
+  unfold Part.InDomain
+  unfold plainClass at h
+  refine List.all_eq_true.mpr fun n hn => ?_
+  have := List.all_eq_true.mp h n hn
+  simp only [Bool.and_eq_true, Bool.not_eq_true'] at this
+  obtain ⟨⟨⟨h1, h2⟩, h3⟩, h4⟩ := this
+  simp [nameDomain, h1, h2, h3, h4]
+
+theorem plain_classes : plainClass "common.Header" = true ∧ plainClass "composeinfo.Compose" = true ∧ plainClass "composeinfo.Release" = true
+    ∧ plainClass "composeinfo.BaseProduct" = true ∧ plainClass "composeinfo.Variants" = true ∧ plainClass "composeinfo.ComposeInfo" = true
+    ∧ plainClass "images.Image" = true ∧ plainClass "images.Images" = true ∧ plainClass "discinfo.DiscInfo" = true
+    ∧ plainClass "treeinfo.Header" = true ∧ plainClass "treeinfo.Release" = true ∧ plainClass "treeinfo.BaseProduct" = true
+    ∧ plainClass "treeinfo.Tree" = true ∧ plainClass "treeinfo.Variants" = true ∧ plainClass "treeinfo.Stage2" = true
+    ∧ plainClass "treeinfo.Media" = true ∧ plainClass "treeinfo.TreeInfo" = true ∧ plainClass "rpms.Rpms" = true
+    ∧ plainClass "modules.Modules" = true ∧ plainClass "extra_files.ExtraFiles" = true := by decide +kernel
+
+/-- images: ANY failure of the dump is TypeError or ValueError (no hypothesis) -/
+theorem C06_errclass_images (m : ImagesM) (e : Err) (h : m.dumps = .error e) : e = .typeError ∨ e = .valueError := by
+  obtain ⟨p1, p2, _, _, _, _, p7, p8, _⟩ := plain_classes
+  have hc : CheckIn (fun _ => False) m.steps := by
+    unfold ImagesM.steps
+    exact checkIn_append (checkIn_append (checkIn_append (checkIn_vstep _ _ _ _) (checkIn_jsonHeader _ _)) (checkIn_vstep _ _ _ _))
+      (checkIn_flatMap _ _ _ fun o => checkIn_vstep _ _ _ _)
+  have hd : StepsInDomain m.steps := by
+    intro p hp
+    simp only [ImagesM.steps, List.mem_append, List.mem_flatMap] at hp
+    rcases hp with ((hp | hp) | hp) | ⟨o, _, hp⟩
+    · exact inDomain_of_plain p (validate_mem_vstep hp ▸ p8)
+    · exact inDomain_of_plain p (validate_mem_jsonHeader hp ▸ p1)
+    · exact inDomain_of_plain p (validate_mem_vstep hp ▸ p2)
+    · exact inDomain_of_plain p (validate_mem_vstep hp ▸ p7)
+  rcases errclass_of_steps _ m.steps hc hd e h with h1 | h1
+  · exact h1
+  · exact h1.elim
+
+/-- rpms / modules / extra_files -/
+theorem C06_errclass_simple (m : SimpleM) (hcls : plainClass m.cls = true) (e : Err) (h : m.dumps = .error e) :
+    e = .typeError ∨ e = .valueError := by
+  obtain ⟨p1, p2, _⟩ := plain_classes
+  have hc : CheckIn (fun _ => False) m.steps := by
+    unfold SimpleM.steps
+    exact checkIn_append (checkIn_append (checkIn_vstep _ _ _ _) (checkIn_jsonHeader _ _)) (checkIn_vstep _ _ _ _)
+  have hd : StepsInDomain m.steps := by
+    intro p hp
+    simp only [SimpleM.steps, List.mem_append] at hp
+    rcases hp with (hp | hp) | hp
+    · exact inDomain_of_plain p (validate_mem_vstep hp ▸ hcls)
+    · exact inDomain_of_plain p (validate_mem_jsonHeader hp ▸ p1)
+    · exact inDomain_of_plain p (validate_mem_vstep hp ▸ p2)
+  rcases errclass_of_steps _ m.steps hc hd e h with h1 | h1
+  · exact h1
+  · exact h1.elim
+
+theorem C06_errclass_discinfo (m : DiscM) (e : Err) (h : m.dumps = .error e) : e = .typeError ∨ e = .valueError := by
+  obtain ⟨_, _, _, _, _, _, _, _, p9, _⟩ := plain_classes
+  have hc : CheckIn (fun _ => False) m.steps := by
+    unfold DiscM.steps
+    exact checkIn_append (checkIn_vstep _ _ _ _) (checkIn_vstep _ _ _ _)
+  have hd : StepsInDomain m.steps := by
+    intro p hp
+    simp only [DiscM.steps, List.mem_append] at hp
+    rcases hp with hp | hp <;> exact inDomain_of_plain p (validate_mem_vstep hp ▸ p9)
+  rcases errclass_of_steps _ m.steps hc hd e h with h1 | h1
+  · exact h1
+  · exact h1.elim
+
+/-- composeinfo: ANY failure of the dump is TypeError or ValueError, for objects whose validated parts are in the model's domain
+(scalar parent uids, no foreign arch container) -/
+theorem C06_errclass_composeinfo (m : ComposeInfoM) (hd : StepsInDomain m.steps) (e : Err) (h : m.dumps = .error e) :
+    e = .typeError ∨ e = .valueError := by
+  have hc : CheckIn TV m.steps := by
+    unfold ComposeInfoM.steps
+    exact checkIn_append (checkIn_append (checkIn_append (checkIn_append (checkIn_append (checkIn_append (checkIn_vstep _ _ _ _)
+      (checkIn_jsonHeader _ _)) (checkIn_vstep _ _ _ _)) (checkIn_vstep _ _ _ _)) (checkIn_ite _ _ (checkIn_vstep _ _ _ _) (checkIn_nil _)))
+      (checkIn_vstep _ _ _ _)) (checkIn_evSteps _ _)
+  rcases errclass_of_steps TV m.steps hc hd e h with h1 | h1 <;> exact h1
+
+/-- what `StepsInDomain` asks of a composeinfo object, spelled out: only the variants matter, and of them only the two
+pseudo-attributes read through the parent -/
+theorem composeinfo_inDomain (m : ComposeInfoM)
+    (hv : ∀ ev ∈ m.events, ∀ o, ev = Ev.exit o → parentArchesKnown o = true ∧ parentUidKnown o = true) : StepsInDomain m.steps := by
+  obtain ⟨p1, p2, p3, p4, p5, p6, _⟩ := plain_classes
+  intro p hp
+  simp only [ComposeInfoM.steps, List.mem_append] at hp
+  rcases hp with (((((hp | hp) | hp) | hp) | hp) | hp) | hp
+  · exact inDomain_of_plain p (validate_mem_vstep hp ▸ p6)
+  · exact inDomain_of_plain p (validate_mem_jsonHeader hp ▸ p1)
+  · exact inDomain_of_plain p (validate_mem_vstep hp ▸ p2)
+  · exact inDomain_of_plain p (validate_mem_vstep hp ▸ p3)
+  · split at hp
+    · exact inDomain_of_plain p (validate_mem_vstep hp ▸ p4)
+    · cases hp
+  · exact inDomain_of_plain p (validate_mem_vstep hp ▸ p5)
+  · obtain ⟨ev, hev, hpe⟩ := validate_mem_evSteps p _ _ hp
+    cases ev with
+    | enter o rel =>
+      simp only [evParts] at hpe
+      split at hpe
+      · simp only [List.mem_cons, List.not_mem_nil, or_false] at hpe
+        exact inDomain_of_plain p (hpe ▸ p3)
+      · cases hpe
+    | exit o =>
+      simp only [evParts, List.mem_cons, List.not_mem_nil, or_false] at hpe
+      obtain ⟨ha, hu⟩ := hv _ hev o rfl
+      subst hpe
+      have hnames : (genRules "composeinfo.Variant").flatMap Rule.customNamesIn = [Spec.cCiParentArch, Spec.cCiUid, Spec.cVariantKeys] := by
+        decide +kernel
+      simp only [Part.InDomain, hnames, List.all_cons, List.all_nil, Bool.and_true, Bool.and_eq_true]
+      refine ⟨?_, ?_, ?_⟩
+      · simpa [nameDomain] using ha
+      · have : nameDomain Spec.cCiUid o = parentUidKnown o := by
+          unfold nameDomain
+          have h1 : (Spec.cCiUid == Spec.cCiParentArch) = false := by decide
+          simp [h1]
+        rw [this]; exact hu
+      · have h1 : (Spec.cVariantKeys == Spec.cCiParentArch) = false := by decide
+        have h2 : (Spec.cVariantKeys == Spec.cCiUid) = false := by decide
+        have h3 : (Spec.cVariantKeys == Spec.cTiUid) = false := by decide
+        have h4 : (Spec.cVariantKeys == Spec.cTiChecksumPaths) = false := by decide
+        have h5 : (Spec.cVariantKeys == Spec.cTiImagePaths) = false := by decide
+        simp [nameDomain, h1, h2, h3, h4, h5]
+
+/-- treeinfo: ANY failure of the dump is TypeError or ValueError — or the IndexError of a tree without variants (F12) — for
+objects whose validated parts are in the model's domain (scalar parent uids; checksum and platform tables that are dicts) -/
+theorem C06_errclass_treeinfo (m : TreeInfoM) (hd : StepsInDomain m.steps) (e : Err) (h : m.dumps = .error e) :
+    e = .typeError ∨ e = .valueError ∨ (e = .indexError ∧ m.variants = []) := by
+  have hc : CheckIn (fun e => TV e ∨ (e = .indexError ∧ m.variants = [])) m.steps := by
+    unfold TreeInfoM.steps
+    refine checkIn_append (checkIn_append (checkIn_append (checkIn_append (checkIn_append (checkIn_append (checkIn_append (checkIn_append
+      (checkIn_append (checkIn_append (checkIn_append (checkIn_vstep _ _ _ _) (checkIn_vstep _ _ _ _)) (checkIn_vstep _ _ _ _))
+      (checkIn_ite _ _ (checkIn_vstep _ _ _ _) (checkIn_nil _))) (checkIn_vstep _ _ _ _)) (checkIn_vstep _ _ _ _)) ?_) (checkIn_vstep _ _ _ _))
+      (checkIn_ite _ _ (checkIn_vstep _ _ _ _) (checkIn_nil _))) (checkIn_ite _ _ (checkIn_vstep _ _ _ _) (checkIn_nil _))) ?_) ?_
+    · refine checkIn_flatMap _ _ _ fun o => ?_
+      unfold TreeInfoM.variantSteps
+      refine checkIn_append (checkIn_vstep _ _ _ _) (checkIn_single _ _ fun e he => ?_)
+      split at he
+      · cases he
+      · exact Or.inl (Or.inl (by cases he; rfl))
+    · refine checkIn_ite _ _ (checkIn_append (checkIn_vstep _ _ _ _) ?_) (checkIn_nil _)
+      have h1 : CheckIn (fun e => TV e ∨ (e = .indexError ∧ m.variants = [])) [Step.check (pyIntOk (m.media.get c!"discnum"))] :=
+        checkIn_single _ _ fun e he => Or.inl (Or.inl (pyIntOk_tv _ e he))
+      have h2 : CheckIn (fun e => TV e ∨ (e = .indexError ∧ m.variants = [])) [Step.check (pyIntOk (m.media.get c!"totaldiscs"))] :=
+        checkIn_single _ _ fun e he => Or.inl (Or.inl (pyIntOk_tv _ e he))
+      exact checkIn_append h1 h2
+    · refine checkIn_single _ _ fun e he => ?_
+      split at he
+      · rename_i hemp
+        exact Or.inr ⟨by cases he; rfl, by simpa using hemp⟩
+      · cases he
+  rcases errclass_of_steps _ m.steps hc hd e h with (h1 | h1) | ((h1 | h1) | h1)
+  · exact Or.inl h1
+  · exact Or.inr (Or.inl h1)
+  · exact Or.inl h1
+  · exact Or.inr (Or.inl h1)
+  · exact Or.inr (Or.inr h1)
+
 /-! ## F19: the witness (replayed on the real code by the harness) -/
 
 /-- F23 (repaired by a `fix:` commit; this theorem used to state `AttributeError`): a childless top-level variant whose uid is
@@ -528,5 +737,47 @@ def exImages (size : PyVal) : ImagesM := ⟨[(c!"version", .str c!"0.0")], exCom
 example : (exImages (.int 1)).parts.all conformsB = true ∧ isOk (exImages (.int 1)).dumps = true := by decide +kernel
 /-- … and one image field corrupted (`size = 0`): a part violates the catalogue (hypothesis of `C06_enforced_images`), dump refused -/
 example : (exImages (.int 0)).parts.all conformsB = false ∧ isOk (exImages (.int 0)).dumps = false := by decide +kernel
+
+/-! ### the domain hypothesis of `C06_errclass_composeinfo/_treeinfo` and the hypotheses of `C06_converse_treeinfo` -/
+
+def stepsInDomainB (steps : List Step) : Bool := steps.all fun s => match s with | .validate p => p.InDomain | .check _ => true
+
+theorem stepsInDomain_of_B {steps : List Step} (h : stepsInDomainB steps = true) : StepsInDomain steps := by
+  intro p hp
+  exact List.all_eq_true.mp h _ hp
+
+def exRelease : Obj := [(c!"name", .str c!"F"), (c!"short", .str c!"F"), (c!"version", .str c!"1"), (c!"type", .str c!"ga"),
+  (c!"is_layered", .bool false), (c!"internal", .bool false)]
+def exVar (id uid : PyVal) (arches : List PyVal) : Obj :=
+  [(c!"id", id), (c!"uid", uid), (c!"name", .str c!"n"), (c!"type", .str c!"variant"), (c!"arches", .list arches)]
+/-- `Server` with a child `optional`; the parent's uid and the child's arches are the parameters -/
+def exCI (puid : PyVal) (karch : PyVal) : ComposeInfoM :=
+  ⟨[], exCompose, exRelease, [],
+   [.mk c!"Server" (exVar (.str c!"Server") puid [.str c!"x86_64"]) []
+      [.mk c!"optional" (exVar (.str c!"optional") (.str c!"Server-optional") [karch]) [] []]]⟩
+
+/-- a two-level compose in the domain that is written; with a foreign child arch it is in the domain and refused with ValueError;
+with a LIST as the parent's uid the child's alignment cannot be computed: outside the domain (`Err.other`) -/
+example : stepsInDomainB (exCI (.str c!"Server") (.str c!"x86_64")).steps = true ∧ isOk (exCI (.str c!"Server") (.str c!"x86_64")).dumps = true
+    ∧ stepsInDomainB (exCI (.str c!"Server") (.str c!"sparc")).steps = true
+    ∧ (match (exCI (.str c!"Server") (.str c!"sparc")).dumps with | .error .valueError => true | _ => false) = true
+    ∧ stepsInDomainB (exCI (.list []) (.str c!"x86_64")).steps = false := by decide +kernel
+
+def exTI (variants : List TIVar) (media : Obj) : TreeInfoM :=
+  ⟨[(c!"version", .str c!"1.2")], [(c!"name", .str c!"F"), (c!"short", .str c!"F"), (c!"version", .str c!"1"), (c!"is_layered", .bool false)], [],
+   [(c!"arch", .str c!"x86_64"), (c!"build_timestamp", .int 1), (c!"platforms", .list [.str c!"x86_64"])], variants,
+   [(c!"checksums", .dict [])], [(c!"images", .dict [(c!"x86_64", .dict [(c!"kernel", .str c!"images/kernel")])])],
+   [(c!"mainimage", .none), (c!"instimage", .none)], media⟩
+def exTIVar : TIVar := .mk c!"S" [(c!"id", .str c!"S"), (c!"uid", .str c!"S"), (c!"name", .str c!"S"), (c!"type", .str c!"variant")] []
+def noMedia : Obj := [(c!"discnum", .none), (c!"totaldiscs", .none)]
+
+/-- a tree meeting every hypothesis of `C06_converse_treeinfo` (written), and the three writer-side failure sources, each with all
+parts conforming: no variant (IndexError, F12), `[media]` with one number (`int(None)`, TypeError) -/
+example : (exTI [exTIVar] noMedia).parts.all conformsB = true ∧ isOk (exTI [exTIVar] noMedia).dumps = true
+    ∧ stepsInDomainB (exTI [exTIVar] noMedia).steps = true
+    ∧ (exTI [] noMedia).parts.all conformsB = true ∧ (match (exTI [] noMedia).dumps with | .error .indexError => true | _ => false) = true
+    ∧ (exTI [exTIVar] [(c!"discnum", .int 1), (c!"totaldiscs", .none)]).parts.all conformsB = true
+    ∧ (match (exTI [exTIVar] [(c!"discnum", .int 1), (c!"totaldiscs", .none)]).dumps with | .error .typeError => true | _ => false) = true := by
+  decide +kernel
 
 end PM
